@@ -22,6 +22,12 @@ CHECKS = {
  "C19": ("other", "dominator / post-dominator obligations and a relational interval fact (pos <= length) on the CFGs of d_string.c; field-write coherence census outside it",
          "Decides the structural discipline the string model rests on: capacity ensured for exactly the stored length before every growing write, NUL re-stored after every length change, positions clamped or rejected before addressing, the -1 forms tested first, ensureStringBufferCanHold reserving size+1 and recording what it reallocated, and DString fields written coherently outside d_string.c. Does not decide equality with an ideal string (memmove lengths are not verified).",
          "§3 C19"),
+ "C07": ("other", "call-graph SCC classification: depth-guard recognition (dominators), monotone-parameter recursion, block-only descent by EDPE, leaf self-calls from the pairing table; stack budget from compile-only -fstack-usage",
+         "Decides the stack clause structurally: every recursive cycle reachable from the API is bounded by a guard against a constant (or confined to block-level nesting / flat input / a visited set) and bound x frame sizes fits a 2 MiB budget; plus R-CONSTTIME (append primitives are loop-free), a necessary condition of the linear-cost clause. Asymptotic cost itself is NOT decided (data-dependent loops).",
+         "§3 C07"),
+ "C13": ("other", "dominator / post-dominator obligations on mmd_transclude_source's CFG + interval analysis of its text[] buffer",
+         "Decides the termination guard only: the recursive call is dominated by the push of the file and by a membership loop over the files being expanded whose hit branch skips the recursion, every push is followed by exactly one pop, exit restores the stack; and the 1000-byte cap fits text[1100]. Exact substitution, manifest contents and path resolution are not decided.",
+         "§3 C13"),
  "C17": ("other", "same inventory on the -DDISABLE_OBJECT_POOL configuration with an empty allow list",
          "Decides the 'no shared mutable state' clause for the pool-disabled build; does not decide byte equality across threads.",
          "§3 C17"),
